@@ -642,6 +642,10 @@ int c07_run(const char *tier) {
 	e2_spec_t s1 = { .harness = "c07.hist", .param = param1, .nparam = 1, .nevents = NSUBSET, .max_depth = d ? atoi(d) : 8, .label = "c07.hist(shared-entity events)", .evname = hevname };
 	hev_alpha = 0; if (!only || only[0] == '0') e2_explore(&s);
 	if (thorough) { hev_alpha = 1; if (!only || only[0] == '1') e2_explore(&s1); hev_alpha = 0; }
+	/* the optimistic effect of the user's own commands when two threads issue them concurrently (harness shared with C10/H6):
+	 * tracked state and a decoder model folded over the wire equal one of the two sequential orders */
+	{ extern void c10_run_lin(int bound, long *execs, long *states, long *transitions, int *exhaustive); long le = 0, ls = 0, lt = 0; int lex = 1;
+	  c10_run_lin(thorough ? 2 : 1, &le, &ls, &lt, &lex); s.execs += le; s.states += ls; s.transitions += lt; if (!lex) s.exhaustive = 0; }
 	rep_count("states", s.states + s1.states + sw.distinct_outcomes); rep_count("transitions", s.transitions + s1.transitions + rep_get("sweep_cases")); rep_count("executions", s.execs + s1.execs + sw.done);
 	rep_flag("exhaustive", s.exhaustive && sw.exhaustive && (!thorough || s1.exhaustive));
 	char sb[200], sb1[200] = "-"; size_t o = 0; for (int i = 0; i <= s.depth_completed + 1 && i < 16; i++) o += (size_t) snprintf(sb + o, sizeof sb - o, "%ld ", s.states_by_depth[i]);
